@@ -402,6 +402,21 @@ func (c *Ctx) checkSMCodec(sm *StateMachine) {
 		return ok && p.TypesInfo.Uses[id] == swTag
 	})
 	if !found {
+		// not a switch: the tags for which a message struct is constructed, from block feasibility under the tag
+		maxTag := int64(0)
+		for _, id := range sm.sortedIDs() {
+			for _, t := range sm.Entries[id].Trans {
+				if t.MsgType > maxTag {
+					maxTag = t.MsgType
+				}
+			}
+		}
+		for v := range variantAllocTypes(c.SSAOf(fobj), maxTag+2, func(t *types.Named) bool { return embedsMessageBase(t) }) {
+			vals[v] = fd.Pos()
+			found = true
+		}
+	}
+	if !found {
 		c.Undecided("%s.NewMsgFromCbor: no switch on the message type parameter", sm.Pkg)
 	}
 	// unknown message types are rejected: with the tag valued outside the table, no return with a nil error is
